@@ -375,3 +375,12 @@ def run(ctx):
     r2_reads(ctx)
     r3_agreement(ctx)
     r4_threading(ctx)
+
+
+_run_before_fx = run
+
+
+def run(ctx):
+    _run_before_fx(ctx)
+    from . import movefx_rules
+    movefx_rules.rule_hash_vs_make(ctx)
